@@ -2,7 +2,7 @@
 use super::{common_assumptions, PropResult};
 use crate::blobfmt::{self, ParseEnd, ParsedRec};
 use crate::findings::Findings;
-use crate::interp::{Checks, Exec, Failure};
+use crate::interp::{Checks, Exec, Failure, Stats};
 use crate::model::{Kind, Model, Rec};
 use crate::ops::*;
 use crate::runner::*;
@@ -346,6 +346,165 @@ pub fn run_tool(c: &ToolCase, dir: &Path, findings: &Findings) -> Result<CaseOut
     Ok(CaseOut { nontrivial, labels, stats, known_hits: known, weight: 1 })
 }
 
+/// Long blobs and version migration: `n` small records written by the storage; recovery / migration of the UNDAMAGED blob
+/// with a given `validate_every` must reproduce it record for record; with `v0` the blob is turned into a version-0 blob
+/// (version 0 = key bytes stored reversed: the records are written under reversed keys and the header version is patched)
+/// and migrated to version 1.
+#[derive(Clone, Debug, Serialize, Deserialize)]
+pub struct LongCase {
+    pub keylen: usize,
+    pub n: u32,
+    pub validate_every: u32,
+    pub v0: bool,
+    pub rt_workers: usize,
+}
+
+fn long_key(keylen: usize, i: u32) -> Vec<u8> {
+    let mut v = vec![(i % 251) as u8; keylen];
+    v[..4].copy_from_slice(&i.to_be_bytes());
+    v
+}
+
+fn long_cases(thorough: bool) -> Vec<LongCase> {
+    let mut out = vec![];
+    let ves: Vec<u32> = if thorough { vec![0, 1, 7, 64, 1024, 1025, 1030, 1200, 1499, 1500, 1501, 5000] } else { vec![0, 64, 1030, 5000] };
+    for (keylen, n) in if thorough { vec![(8usize, 1500u32), (32, 1500), (8, 2600)] } else { vec![(8usize, 1500u32)] } {
+        for v0 in [false, true] {
+            for ve in &ves {
+                out.push(LongCase { keylen, n, validate_every: *ve, v0, rt_workers: if *ve % 2 == 0 { 2 } else { 0 } });
+            }
+        }
+    }
+    out
+}
+
+pub fn run_long(c: &LongCase, dir: &Path, _findings: &Findings) -> Result<CaseOut, Failure> {
+    let cfg = Cfg { keylen: c.keylen, allow_dup: true, rt_workers: c.rt_workers, ..Cfg::default() };
+    let src = dir.join("src");
+    let _ = std::fs::remove_dir_all(dir);
+    let rt = cfg.runtime();
+    let stored_key = |i: u32| -> Vec<u8> {
+        let mut k = long_key(c.keylen, i);
+        if c.v0 {
+            k.reverse();
+        }
+        k
+    };
+    // expected final answer per logical key: None = deleted
+    let mut expect: Vec<Option<Vec<u8>>> = vec![];
+    let mut stats = Stats::default();
+    rt.block_on(async {
+        let s = match sut::open(&cfg, &src, false).await {
+            Ok(s) => s,
+            Err(e) => return fail("init/err", format!("{:#}", e)),
+        };
+        for i in 0..c.n {
+            let val = value_bytes(i as usize, i % 41, 0);
+            let mm = if i % 5 == 0 { meta_pool((1 + i % 3) as u8) } else { None };
+            if let Err(e) = s.write(&stored_key(i), bytes::Bytes::from(val.clone()), 1 + (i % 3) as u64, mm.as_ref().map(sut::to_meta)).await {
+                return fail("write/err", format!("{:#}", e));
+            }
+            expect.push(Some(val));
+            if i % 97 == 50 {
+                let victim = i - 13;
+                if let Err(e) = s.delete(&stored_key(victim), 9, None, false).await {
+                    return fail("delete/err", format!("{:#}", e));
+                }
+                expect[victim as usize] = None;
+            }
+        }
+        stats.writes = c.n as u64;
+        s.close().await.map_err(|e| Failure { clause: "close/err".into(), detail: format!("{:#}", e), step: 0, op: String::new() })
+    })?;
+    let blob = sut::blob_path(&src, 0);
+    let orig = match blobfmt::parse_blob_file(&blob, c.keylen) {
+        Ok(p) if p.end == ParseEnd::Clean => p,
+        Ok(p) => return fail("blobfile/parse", format!("storage output does not parse: {:?}", p.end)),
+        Err(e) => return fail("harness/parse", e.to_string()),
+    };
+    let _enter = rt.enter();
+    let mut labels: BTreeSet<String> = BTreeSet::new();
+    // recovery of the undamaged blob (any batch size of the write-back validation) reproduces it
+    let recovered = dir.join("recovered.blob");
+    if let Err(e) = tools::recovery_blob(&blob, &recovered, c.validate_every as usize, false) {
+        return fail("recovery_blob/err-on-wellformed", format!("validate_every={}, {} records: {:#}", c.validate_every, orig.records.len(), e));
+    }
+    match blobfmt::parse_blob_file(&recovered, c.keylen) {
+        Ok(m) if m.end == ParseEnd::Clean && m.records.len() == orig.records.len() && m.records.iter().zip(orig.records.iter()).all(|(a, b)| same_record(a, b) && a.pos == b.pos) => {}
+        Ok(m) => return fail("recovery_blob/records-differ", format!("validate_every={}: {} records vs {} (end {:?})", c.validate_every, m.records.len(), orig.records.len(), m.end)),
+        Err(e) => return fail("harness/parse", e.to_string()),
+    }
+    // migration (version 1 -> 1, or 0 -> 1 with the key bytes reversed back)
+    if c.v0 {
+        let mut bytes = std::fs::read(&blob).map_err(|e| Failure { clause: "harness/read".into(), detail: e.to_string(), step: 0, op: String::new() })?;
+        bytes[8..12].copy_from_slice(&0u32.to_le_bytes());
+        std::fs::write(&blob, bytes).map_err(|e| Failure { clause: "harness/write".into(), detail: e.to_string(), step: 0, op: String::new() })?;
+        labels.insert("version0_source".into());
+    }
+    let out_dir = dir.join("migrated");
+    let _ = std::fs::create_dir_all(&out_dir);
+    let migrated = sut::blob_path(&out_dir, 0);
+    if let Err(e) = tools::migrate_blob(&blob, &migrated, c.validate_every as usize, 1) {
+        return fail("migrate_blob/err", format!("validate_every={} v0={}: {:#}", c.validate_every, c.v0, e));
+    }
+    if let Err(e) = tools::validate_blob(&migrated) {
+        return fail("migrate_blob/output-invalid", format!("{:#}", e));
+    }
+    let m = match blobfmt::parse_blob_file(&migrated, c.keylen) {
+        Ok(m) => m,
+        Err(e) => return fail("harness/parse", e.to_string()),
+    };
+    if m.end != ParseEnd::Clean || m.version != 1 || m.records.len() != orig.records.len() {
+        return fail("migrate_blob/records-differ", format!("version {} with {} records (end {:?}), source has {}", m.version, m.records.len(), m.end, orig.records.len()));
+    }
+    for (a, b) in m.records.iter().zip(orig.records.iter()) {
+        let mut want_key = b.hdr.key.clone();
+        if c.v0 {
+            want_key.reverse();
+        }
+        let same = a.hdr.key == want_key && a.hdr.timestamp == b.hdr.timestamp && a.hdr.flags == b.hdr.flags && a.data == b.data && blobfmt::parse_meta(&a.meta) == blobfmt::parse_meta(&b.meta) && a.header_crc_ok && a.data_crc_ok && a.pos == b.pos && a.hdr.blob_offset == a.pos;
+        if !same {
+            return fail("migrate_blob/record-altered", format!("record at {}: key {:02x?} (expected {:02x?}), header checksum ok: {}", a.pos, &a.hdr.key[..4.min(a.hdr.key.len())], &want_key[..4.min(want_key.len())], a.header_crc_ok));
+        }
+    }
+    // the storage serves every record of the migrated blob under its logical key
+    let served = rt.block_on(async {
+        let s = match sut::open(&cfg, &out_dir, false).await {
+            Ok(s) => s,
+            Err(e) => return fail("migrated/init-err", format!("{:#}", e)),
+        };
+        if s.corrupted_blobs_count() != 0 {
+            return fail("migrated/quarantined", "storage quarantined the migrated blob".into());
+        }
+        let mut q = 0u64;
+        for (i, want) in expect.iter().enumerate() {
+            if i % 7 != 0 && i + 20 < expect.len() && want.is_some() {
+                continue; // every 7th key, every deleted key and the last 20
+            }
+            q += 1;
+            let got = s.read(&long_key(c.keylen, i as u32)).await;
+            let ok = match (&got, want) {
+                (Ok(sut::RR::Found(d)), Some(w)) => d == w,
+                (Ok(sut::RR::Deleted(_)), None) => true,
+                _ => false,
+            };
+            if !ok {
+                return fail("migrated/read", format!("key {} is not served after migration: {}", i, match got { Ok(r) => r.class().to_string(), Err(e) => format!("Err({:#})", e) }));
+            }
+        }
+        let _ = s.close().await;
+        Ok(q)
+    })?;
+    stats.queries = served + 2 * orig.records.len() as u64;
+    stats.steps = 1;
+    labels.insert(format!("validate_every_{}", c.validate_every));
+    Ok(CaseOut { nontrivial: orig.records.len() > 1024, labels, stats, known_hits: BTreeSet::new(), weight: 1 })
+}
+
+fn sample_long(c: &LongCase) -> Value {
+    json!({"keylen": c.keylen, "records": c.n, "validate_every": c.validate_every, "source_version": if c.v0 { 0 } else { 1 }})
+}
+
 fn sample(c: &ToolCase) -> Value {
     json!({"keylen": c.cfg.keylen, "ops": render_ops(&c.ops), "damage": format!("{:?}", c.dmg), "validate_every": c.validate_every})
 }
@@ -357,10 +516,12 @@ pub fn run(ctx: &RunCtx) -> PropResult {
     run_replays::<ToolCase, _>(ctx, "tools", &ctx.verif_dir.join("replays").join("C16"), runf, &mut report);
     let runf = |c: &ToolCase, d: &Path| run_tool(c, d, &findings);
     run_generated(ctx, "tools", ctx.tier.pick(5000, 60_000), tool_strategy, runf, &sample, &mut report);
+    let runf = |c: &LongCase, d: &Path| run_long(c, d, &findings);
+    run_enumerated(ctx, "tools-long", long_cases(ctx.tier == Tier::Thorough), runf, &sample_long, &mut report);
     PropResult {
         report,
         level: "fault_enumeration",
-        rule: "A generated single-blob history (key lengths 4/8/32/128 so that read_index applies; values across the 4 KiB / 80 KiB thresholds; metadata; deletion markers) is written by the storage. Undamaged: validate_blob and validate_index accept, read_index reports exactly the (key, blob_offset) pairs found by the harness's own parser, migrate_blob output is record-for-record equal. Then one generated damage: truncation strictly inside a chosen record at a position class (blob header / record header / meta / data), or one XOR-ed byte in one of 15 position classes (blob magic, version, flags; record magic, key length, key, meta_size, data_size, flags, blob_offset, timestamp, data checksum, header checksum; meta; data). Oracle: validate_blob rejects; recovery_blob (skip false and true) succeeds unless the blob header itself is damaged, its output validates, parses, starts with every intact record that precedes the damage, with skip also holds every record after it when the damage leaves the size fields intact, contains nothing but intact originals in order, every header's blob_offset equals its position, and a Storage opened on the output serves every contained record (read, read_with, read_all + load, load_data/load_meta) with the original bytes. Non-trivial = the damage hits a record that is not the last one. distinct = FNV hash of the serialized case.".into(),
+        rule: "A generated single-blob history (key lengths 4/8/32/128 so that read_index applies; values across the 4 KiB / 80 KiB thresholds; metadata; deletion markers) is written by the storage. Undamaged: validate_blob and validate_index accept, read_index reports exactly the (key, blob_offset) pairs found by the harness's own parser, migrate_blob output is record-for-record equal. Then one generated damage: truncation strictly inside a chosen record at a position class (blob header / record header / meta / data), or one XOR-ed byte in one of 15 position classes (blob magic, version, flags; record magic, key length, key, meta_size, data_size, flags, blob_offset, timestamp, data checksum, header checksum; meta; data). Oracle: validate_blob rejects; recovery_blob (skip false and true) succeeds unless the blob header itself is damaged, its output validates, parses, starts with every intact record that precedes the damage, with skip also holds every record after it when the damage leaves the size fields intact, contains nothing but intact originals in order, every header's blob_offset equals its position, and a Storage opened on the output serves every contained record (read, read_with, read_all + load, load_data/load_meta) with the original bytes. An enumerated phase (tools-long) writes 1500-2600 small records (markers, metas) and requires that recovery_blob and migrate_blob of the UNDAMAGED blob succeed and reproduce it record for record for validate_every in {0, 1, 7, 64, 1024, 1025, 1030, 1200, n-1, n, n+1, 5000}, also from a version-0 source (records stored under reversed keys, header version patched to 0): the version-1 output must carry the logical keys with valid checksums and a Storage opened on it must serve them. Non-trivial = the damage hits a record that is not the last one (tools); more than 1024 records (tools-long). distinct = FNV hash of the serialized case.".into(),
         assumptions: common_assumptions(),
     }
 }
@@ -369,6 +530,9 @@ pub fn replay_other(phase: &str, case: &Value, dir: &Path, findings: &Findings) 
     if phase == "tools" {
         let runf = |c: &ToolCase, d: &Path| run_tool(c, d, findings);
         serde_json::from_value::<ToolCase>(case.clone()).ok().map(|c| guarded(&c, dir, &runf))
+    } else if phase == "tools-long" {
+        let runf = |c: &LongCase, d: &Path| run_long(c, d, findings);
+        serde_json::from_value::<LongCase>(case.clone()).ok().map(|c| guarded(&c, dir, &runf))
     } else {
         None
     }
